@@ -7,75 +7,39 @@ import Proofs.Lemmas.C15Order
 namespace Flatland.C15.Proofs
 open Flatland.C16 Flatland.C15 Flatland.C15.Spec
 
-theorem mem_dedup (x : Str) (l : List Str) : x ∈ dedup l ↔ x ∈ l := by
-  induction l with
-  | nil => simp [dedup]
-  | cons y ys ih =>
-    simp only [dedup]
-    by_cases h : (dedup ys).contains y = true
-    · rw [if_pos h]
-      have hy : y ∈ dedup ys := by simpa using h
-      constructor
-      · intro hx; exact List.mem_cons_of_mem _ (ih.1 hx)
-      · intro hx
-        rcases List.mem_cons.1 hx with heq | hx
-        · rw [heq]; exact hy
-        · exact ih.2 hx
-    · rw [if_neg h]
-      constructor
-      · intro hx
-        rcases List.mem_cons.1 hx with heq | hx
-        · rw [heq]; exact List.mem_cons_self
-        · exact List.mem_cons_of_mem _ (ih.1 hx)
-      · intro hx
-        rcases List.mem_cons.1 hx with heq | hx
-        · rw [heq]; exact List.mem_cons_self
-        · exact List.mem_cons_of_mem _ (ih.2 hx)
-
-theorem dedup_eq_nil (l : List Str) : dedup l = [] ↔ l = [] := by
-  constructor
-  · intro h
-    cases l with
-    | nil => rfl
-    | cons y ys =>
-      have : y ∈ dedup (y :: ys) := (mem_dedup y _).2 (by simp)
-      rw [h] at this
-      cases this
-  · intro h; subst h; rfl
-
 theorem insertSorted_ne_nil (x : Str) (l : List Str) : insertSorted x l ≠ [] := by
   cases l with
   | nil => simp [insertSorted]
   | cons y ys => simp only [insertSorted]; split <;> simp
 
-theorem sortStrs_isEmpty (l : List Str) : (sortStrs l).isEmpty = l.isEmpty := by
-  unfold sortStrs
-  cases hd : dedup l with
-  | nil =>
-    have := (dedup_eq_nil l).1 hd
-    subst this; rfl
+theorem sortOnly_isEmpty (l : List Str) : (sortOnly l).isEmpty = l.isEmpty := by
+  cases l with
+  | nil => rfl
   | cons y ys =>
-    have hl : l ≠ [] := by
-      intro h; subst h; simp [dedup] at hd
-    simp only [List.foldr]
+    simp only [sortOnly, List.foldr]
     have h1 := insertSorted_ne_nil y (List.foldr insertSorted [] ys)
     cases h2 : insertSorted y (List.foldr insertSorted [] ys) with
     | nil => exact absurd h2 h1
-    | cons a as =>
-      cases l with
-      | nil => exact absurd rfl hl
-      | cons b bs => rfl
+    | cons a as => rfl
 
-/-- `given - allowed` is empty exactly when every given key is allowed -/
-theorem diffKeys_isEmpty (given allowed : List Str) :
-    (diffKeys given allowed).isEmpty = given.all (fun k => allowed.contains k) := by
+theorem dedupGo_nil_isEmpty (l : List Val) : (dedupGo [] l).isEmpty = l.isEmpty := by
+  cases l with
+  | nil => rfl
+  | cons x xs => simp [dedupGo]
+
+/-- `set(a) - set(b)` is empty exactly when every key of `a` is in `b` -/
+theorem diffKeys_isEmpty (a b : List Val) :
+    (diffKeys a b).isEmpty = a.all (fun k => memKey k b) := by
   unfold diffKeys
-  rw [sortStrs_isEmpty]
-  induction given with
+  rw [sortOnly_isEmpty]
+  have hmap : ∀ l : List Val, (l.map pyStr).isEmpty = l.isEmpty := by
+    intro l; cases l <;> rfl
+  rw [hmap, dedupGo_nil_isEmpty]
+  induction a with
   | nil => rfl
   | cons k ks ih =>
     simp only [List.filter, List.all_cons]
-    cases h : allowed.contains k with
+    cases h : memKey k b with
     | true => simpa using ih
     | false => simp
 
